@@ -16,59 +16,26 @@
      own interleavings with stop() are part of every program: Prog.p_sched).
 
    [current] (Cli/MainEffects.v) is the behaviour of the tree as it is now, i.e. after the
-   repairs 204c2e5, d567ae1, f436ae3, 2d3e878, a77d816; [unrepaired] is the tree before them.
-
-   The full statement is FALSE of [current] in one way (C19_tracing_refuted,
-   C19_restores_refuted): under -l a program that switches the builtin profile on with
-   profile.enable() - as kernprof's own --builtin help text advertises - and ends (returns,
-   exits, raises) before profile.disable() leaves the LineProfiler enabled; the by-count loop of
-   a77d816 does not see a direct enable().  The next in-process run then cannot enable its own
-   profiler (C19_leak_breaks_next_run).  [leaks current o p] is exactly that case
-   (C19_current_leaks_iff): enable_by_count() / `with profile:` / decorated functions / the
-   cProfile flavour (whose final dump_stats() disables) are safe.
-   C19_restores_partial is everything else: argv, path, decorator, threads for ALL run sequences,
-   and the full statement for sequences without such a run; C19_runs_invisible_partial likewise.
-   C19_restores_if_fixed: with that repaired too the full statement holds; each of the six
-   repairs is necessary (the C19_..._needs_... theorems).  builtins.profile staying behind is not
-   part of the statement; it is modelled and compared ([effective_outcome]).
-
-   WHEN IT IS REPAIRED: set fx_direct_enable in [current] (one line in Cli/MainEffects.v), delete
-   C19_tracing_refuted / C19_restores_refuted / C19_leak_breaks_next_run / C19_current_leaks_iff
-   and the lemmas they cite (current_refuted, leak_breaks_next_run, current_leaks_iff), and enable
-   the theorems in the comment at the end of this file. *)
+   repairs 204c2e5, d567ae1, f436ae3, 2d3e878, a77d816, fcd15c8; [unrepaired] is the tree before.
+   The full statement holds of [current] (C19_restores; C19_runs_invisible for runs interleaved
+   with ordinary use) - nothing is left for a _partial theorem - and each of the six repairs is
+   shown to be necessary (the C19_..._needs_... theorems: a main lacking it violates its clause,
+   with the exact wrong state).  builtins.profile staying behind is not part of the statement;
+   it is modelled and compared ([effective_outcome]). *)
 From LP Require Import Prelude.Py Explicit.Base Gen.GlobalProfiler Cli.MainEffects Cli.MainEffectsProofs.
 
-(* -l, program: `profile.enable(); ...` and no disable(): the LineProfiler stays on *)
-Theorem C19_tracing_refuted :
-  exists s o p, usable (gp s) = true /\ tracing s = None /\ p_leaves p = LEnable /\ o_line o = true
-                /\ fst (main current o p s) = Returned
-                /\ tracing_ok s (snd (main current o p s)) = false
-                /\ tracing (snd (main current o p s)) = Some (Ext (next_prof s)).
-Proof. exact (direct_enable_needs_disable current eq_refl). Qed.
+(* After any sequence of in-process runs - whatever the options (including -p selections whose
+   registrations switch the profiler on), whatever the program does (edits or rebinds sys.path /
+   sys.argv, drives the builtin profile itself and leaves it on, lets the periodic-dump timer
+   fire at any moment), however it ends, whether main returns or raises - argv, path,
+   decorator, trace slot and threads are as found. *)
+Theorem C19_restores : C19_statement current.
+Proof. exact restores_current. Qed.
 
-Theorem C19_restores_refuted : ~ C19_statement current.
-Proof. exact current_refuted. Qed.
-
-Theorem C19_leak_breaks_next_run :
-  fst (main current opts0 returns (snd (main current opts0 enabling st0))) = Raised
-  /\ fst (main current opts0 returns st0) = Returned.
-Proof. exact leak_breaks_next_run. Qed.
-
-(* that is the only way: *)
-Theorem C19_current_leaks_iff :
-  forall o p, leaks current o p = o_line o && match p_leaves p with LEnable => true | _ => false end.
-Proof. exact current_leaks_iff. Qed.
-
-(* What holds of the tree as it is, for all interpreter states with a usable decorator and all
-   sequences of runs (any options, outcomes, timer schedules, rebinding programs, registrations):
-   argv, path, decorator and threads are as found - always; and everything is as found when no
-   run leaks ([no_leak current]: no -l run whose program leaves a direct profile.enable() open). *)
-Theorem C19_restores_partial :
-  forall s rs, usable (gp s) = true -> setup_silent rs = true ->
-    argv_ok s (exec_runs current s rs) = true /\ path_ok s (exec_runs current s rs) = true
-    /\ profile_ok s (exec_runs current s rs) = true /\ timers_ok s (exec_runs current s rs) = true
-    /\ (no_leak current rs = true -> restored s (exec_runs current s rs) = true).
-Proof. exact restores_current_partial. Qed.
+(* the same, spelled out for one call of main *)
+Theorem C19_restores_each_run :
+  forall s o p, usable (gp s) = true -> setup_uses o = [] -> restored s (snd (main current o p s)) = true.
+Proof. exact restores_current_run. Qed.
 
 (* "... sequences of several in-process runs followed by ordinary use of the profile decorator":
    interleave kernprof.main runs (ARun) with enable() / disable() / decorations of
@@ -79,12 +46,11 @@ Proof. exact restores_current_partial. Qed.
    enable()/disable() survives every later run, whether it returns or raises.
    (C19_restores itself is about runs whose setup files leave the decorator alone:
    [setup_silent] in C19_statement.) *)
-Theorem C19_runs_invisible_partial :
-  forall acts s, no_leaking_act current acts = true ->
-                 veq (exec_acts current s acts) (set_gp (user_gp acts (cur (argv s)) (gp s)) s).
+Theorem C19_runs_invisible :
+  forall acts s, veq (exec_acts current s acts) (set_gp (user_gp acts (cur (argv s)) (gp s)) s).
 Proof. exact runs_invisible_current. Qed.
 
-(* the decorator object (and sys.argv) need no proviso: a leaked LineProfiler does not touch them *)
+(* the decorator object and sys.argv, for the record (this half never depended on the trace slot) *)
 Theorem C19_decorator_after_any_runs :
   forall acts s, gp (exec_acts current s acts) = user_gp acts (cur (argv s)) (gp s)
                  /\ cur (argv (exec_acts current s acts)) = cur (argv s).
@@ -174,6 +140,10 @@ Theorem C19_leak_broke_next_run :
   /\ fst (main unrepaired opts0 returns st0) = Returned.
 Proof. exact leak_breaks_next_run_unrepaired. Qed.
 
+Theorem C19_direct_enable_broke_next_run :
+  fst (main unrepaired opts0 returns (snd (main unrepaired opts0 enabling st0))) = Raised.
+Proof. exact direct_enable_broke_next_run. Qed.
+
 Theorem C19_unrepaired_refuted : ~ C19_statement unrepaired.
 Proof. exact unrepaired_refuted. Qed.
 
@@ -192,12 +162,3 @@ Theorem C19_nonvacuous :
      = ["/T/setupd"; "/T"; "/lib"; "/prog-added"; "/prog-rebound"]
   /\ cur (argv (snd (main_body current opts_module (mkProg Return false true false true true LNone 0 []) st0))) = ["mod"; "x"; "prog-added"; "prog-rebound"].
 Proof. exact nonvacuous. Qed.
-
-(* AFTER THE REPAIR (fx_direct_enable of [current] true):
-
-Theorem C19_restores : C19_statement current.
-Proof. exact (restores_if_fixed current eq_refl eq_refl eq_refl eq_refl eq_refl eq_refl). Qed.
-Theorem C19_runs_invisible :
-  forall acts s, veq (exec_acts current s acts) (set_gp (user_gp acts (cur (argv s)) (gp s)) s).
-Proof. intros acts s. apply runs_invisible; try reflexivity. unfold no_leaking_act. rewrite forallb_forall. intros a _. destruct a; [cbn; rewrite leaks_fixed by reflexivity|]; reflexivity. Qed.
-*)
